@@ -634,6 +634,13 @@ def check_reject(pr, ctx, geo, mesh):
         row = pyval(table(seed + 2, (nvdim + 1,), ddata), "tuple")
         spec = lambda p: row
     elif bad == "dict_bad_sub":
+        part = pr["geom"]["subs"][0]
+        part_n = [hi_ - lo_ for lo_, hi_ in zip(part[1], part[2])]
+        if nvdim == 1 and part_n == [nvdim + 1]:
+            # a tuple of nvdim+1 numbers has the shape of this 1-d subregion's n: for scalar fields that IS a per-cell
+            # array of the subregion (legal), not a wrong component count - nothing to reject here
+            ctx.trivial()
+            return
         spec = {"part": pyval(table(seed + 2, (nvdim + 1,), ddata), "tuple"), "default": pyval(E[(0,) * geo.ndim], "scalar" if nvdim == 1 else "tuple")}
     elif bad == "dict_no_default":   # cells outside every listed subregion and no default
         spec = {"part": pyval(E[(0,) * geo.ndim], "scalar" if nvdim == 1 else "tuple")}
